@@ -11,13 +11,30 @@ UNKNOWN2 = 98
 UNKNOWNS = (UNKNOWN, UNKNOWN2)
 
 
+def ignore_set(graph):
+    """The manager's ignore list is state that sort_modules reads (it only decides whether a warning is
+    printed): derived deterministically from the map so that replays reproduce it.  UNKNOWN2 is always on
+    it; for two maps in three also a pseudo-random subset of the LISTED modules and UNKNOWN."""
+    import hashlib
+    hsh = int(hashlib.sha256(repr(graph).encode()).hexdigest(), 16)
+    ign = {UNKNOWN2}
+    if hsh % 3:
+        bits = hsh >> 8
+        for i, name in enumerate([m for m, _ in graph] + [UNKNOWN]):
+            if (bits >> i) & 1:
+                ign.add(name)
+    return sorted(ign)
+
+
 def real_sort(graph):
     from psyclone.parse import ModuleManager
+    ModuleManager._instance = None
     mm = ModuleManager.get()
     deps = {f"m{m}": {f"m{d}" for d in ds} for m, ds in graph}
-    # one of the unknown names is on the module manager's ignore list (no warning printed
-    # for it; it must be dropped all the same)
-    mm.add_ignore_module(f"m{UNKNOWN2}")
+    # ignore list: see ignore_set (no warning is printed for an ignored unknown name; it must be dropped
+    # all the same, and an ignored LISTED module is still a known dependency)
+    for i in ignore_set(graph):
+        mm.add_ignore_module(f"m{i}")
     with contextlib.redirect_stdout(io.StringIO()):
         out = mm.sort_modules(deps)
     return [int(x[1:]) for x in out]
@@ -102,6 +119,8 @@ def run(chk):
                        "two unknown names one of which is on the ignore list, then random maps on 4..9 modules (half of them DAGs); non-trivial = "
                        "at least 2 modules and at least one known dependency; distinct by canonical JSON")
     chk.cov["exhaustive"] = False
+    chk.cov["rule"] += ("; the manager's ignore list (state read by sort_modules) always holds one unknown name and, for two maps "
+                        "in three, a hash-derived subset of the listed modules and the other unknown name")
     chk.assumptions += ["dict keys are distinct (Python dict)", "dependency sets are modelled as duplicate-free lists"]
     chk.lean()
     batch = list(cases(chk))
@@ -263,5 +282,5 @@ def replay(payload):
     g = [(m, ds) for m, ds in payload["graph"]]
     out = real_sort(g)
     why = clauses(g, out)
-    print("graph:", g, "\nreal output:", out, "\nproperty:", why or "holds")
+    print("graph:", g, "\nignore list:", ignore_set(g), "\nreal output:", out, "\nproperty:", why or "holds")
     return 1 if why else 0
